@@ -141,6 +141,15 @@ Proof. reflexivity. Qed.
 Theorem command_line_become_applies_to_every_task g tb : g_become g = true -> effective_become g tb = true.
 Proof. unfold effective_become. now intros ->. Qed.
 
+(* K32: on the transfer_pid path the main process has given its credentials away before execvp is
+   even tried - if the exec then fails (and the failure is ignored) the script goes on as the other user *)
+Theorem main_credentials_lost_on_handover_refuted_K32 :
+  let db := [ {| u_name := "root"; u_uid := 0; u_gid := 0 |}; {| u_name := "nobody"; u_uid := 65534; u_gid := 65534 |} ] in
+  let cur := {| c_uid := 0; c_gid := 0 |} in
+  let p := {| b_become := true; b_user := "nobody"; b_is_command := true; b_transfer_pid := true |} in
+  path_of db cur p = DropThenExec /\ main_creds_after db cur p = {| c_uid := 65534; c_gid := 65534 |} /\ main_creds_after db cur p <> cur.
+Proof. cbv zeta. split; [vm_compute; reflexivity|]. split; [vm_compute; reflexivity|]. vm_compute. discriminate. Qed.
+
 (* sanity: a passwd with a user whose gid differs from its uid, by name and by number; a numeric string
    that is also a NAME; out-of-range and malformed numbers *)
 Definition pw_ex : passwd :=
